@@ -269,3 +269,109 @@ Example c20_nonvacuous_mean :
   exists d p q, ds (run init ops) = Some d /\ a_mean d = Some (MFin p q)
                 /\ p * 4 = 80 * q /\ q <> 0.
 Proof. eexists; eexists; eexists. vm_compute. repeat split; discriminate. Qed.
+
+(* ---- hierarchy children across refreshes ---------------------------------------------- *)
+Definition OGood (s : hstate) (o : cobj) : Prop :=
+  let sel := select (h_filt s) (h_vals s) in
+  (forall a, o_arr o = Some a -> a = sel)
+  /\ (forall v, o_min o = Some v -> v = nanmin_l sel)
+  /\ (forall v, o_max o = Some v -> v = nanmax_l sel)
+  /\ (forall m, o_mean o = Some m -> m = nanmean_l sel).
+
+(* while the parent's filter is unchanged since the last refresh, the object
+   held by the child describes the current selection *)
+Definition HInv (s : hstate) : Prop :=
+  h_changed s = false -> match h_obj s with Some o => OGood s o | None => True end.
+
+Lemma hquery_good s w :
+  HInv s -> h_changed s = false ->
+  fst (hquery s w) = spec_q (h_filt s) (h_vals s) w /\ OGood s (snd (hquery s w)).
+Proof.
+  intros HI Hc. specialize (HI Hc). unfold hquery, spec_q.
+  set (o := match h_obj s with Some o => o | None => new_cobj end).
+  assert (HO : OGood s o).
+  { subst o. destruct (h_obj s); [exact HI|]. repeat split; discriminate. }
+  destruct HO as (A & B & C & D).
+  set (sel := select (h_filt s) (h_vals s)) in *.
+  cbv zeta in A, B, C, D.
+  assert (Harr : match o_arr o with Some a => a | None => sel end = sel).
+  { destruct (o_arr o) as [a|]; [now apply A|reflexivity]. }
+  rewrite Harr.
+  assert (Hfin : forall o', 
+            (forall a, o_arr o' = Some a -> a = sel) ->
+            (forall v, o_min o' = Some v -> v = nanmin_l sel) ->
+            (forall v, o_max o' = Some v -> v = nanmax_l sel) ->
+            (forall m, o_mean o' = Some m -> m = nanmean_l sel) -> OGood s o').
+  { intros o' H1 H2 H3 H4. unfold OGood. fold sel. auto. }
+  destruct (w =? 0); [|destruct (w =? 1)].
+  - case_eq (o_min o); [intros v E|intros E]; cbn [fst snd].
+    + split; [now rewrite (B v E)|]. now apply Hfin.
+    + split; [reflexivity|]. apply Hfin; cbn; auto; intros ? [= <-]; reflexivity.
+  - case_eq (o_max o); [intros v E|intros E]; cbn [fst snd].
+    + split; [now rewrite (C v E)|]. now apply Hfin.
+    + split; [reflexivity|]. apply Hfin; cbn; auto; intros ? [= <-]; reflexivity.
+  - case_eq (o_mean o); [intros m E|intros E]; cbn [fst snd].
+    + split; [now rewrite (D m E)|]. now apply Hfin.
+    + split; [reflexivity|]. apply Hfin; cbn; auto; intros ? [= <-]; reflexivity.
+Qed.
+
+Lemma hstep_inv s o : HInv s -> HInv (hstep s o).
+Proof.
+  intros HI. destruct o as [f| |w]; unfold HInv; cbn [hstep h_changed h_obj].
+  - discriminate.
+  - intros _. exact I.
+  - intros Hc. destruct (hquery_good s w HI Hc) as [_ G]. exact G.
+Qed.
+
+Lemma hrun_inv ops : forall s, HInv s -> HInv (hrun s ops).
+Proof.
+  unfold hrun. induction ops as [|o r IH]; intros s HI; [exact HI|].
+  cbn [fold_left]. apply IH, hstep_inv, HI.
+Qed.
+
+Lemma hinit_inv vals : HInv (hinit vals).
+Proof. intros _. exact I. Qed.
+
+(* after any history of filter changes, refreshes and queries: a query made
+   while the child is up to date returns the summary of the selected events *)
+Theorem child_fresh vals ops w :
+  let s := hrun (hinit vals) ops in
+  h_changed s = false ->
+  fst (hquery s w) = spec_q (h_filt s) (h_vals s) w.
+Proof.
+  cbv zeta. intros Hc.
+  apply (hquery_good _ w (hrun_inv ops _ (hinit_inv vals)) Hc).
+Qed.
+
+(* every query of a history that was made in an up-to-date state is right *)
+Fixpoint spec_out (s : hstate) (ops : list hop) : list (bool * qres) :=
+  match ops with
+  | [] => []
+  | HQuery w :: r => (negb (h_changed s), spec_q (h_filt s) (h_vals s) w)
+                     :: spec_out (hstep s (HQuery w)) r
+  | o :: r => spec_out (hstep s o) r
+  end.
+
+Theorem child_history ops : forall s, HInv s ->
+  Forall2 (fun a b : bool * qres => fst a = fst b /\ (fst a = true -> snd a = snd b))
+          (hrun_out s ops) (spec_out s ops).
+Proof.
+  induction ops as [|o r IH]; intros s HI; [constructor|].
+  destruct o as [f| |w]; cbn [hrun_out spec_out].
+  - apply IH, (hstep_inv s (HFilter f)), HI.
+  - apply IH, (hstep_inv s HRefresh), HI.
+  - constructor; [|apply IH, (hstep_inv s (HQuery w)), HI].
+    cbn [fst snd]. split; [reflexivity|]. intros Hc.
+    apply (hquery_good s w HI). now destruct (h_changed s).
+Qed.
+
+Example c20_child_nonvacuous :
+  let vals := [Fin 8; NaN; Fin 24; Fin (-8); PInf] in
+  let ops := [HQuery 0; HFilter [true; true; false; false; true]; HQuery 0; HRefresh;
+              HQuery 0; HQuery 2; HFilter [false; true; true; true; false]; HRefresh;
+              HQuery 1; HQuery 2] in
+  hrun_out (hinit vals) ops
+  = [(true, QF (Fin (-8))); (false, QF (Fin (-8))); (true, QF (Fin 8)); (true, QM MPInf);
+     (true, QF (Fin 24)); (true, QM (MFin 16 2))]
+  /\ h_changed (hrun (hinit vals) ops) = false.
+Proof. vm_compute. repeat split. Qed.
